@@ -18,7 +18,8 @@
    across contexts; a second *live* context for a channel is refused (`lend` fails).         *)
 EXTENDS Naturals, Sequences, FiniteSets, TLC
 
-CONSTANTS Readers, WScripts, ROps
+CONSTANTS Readers, WScripts, ROps,
+          Mutant      \* "none" = the code; "clear_resets_ids": remove_all also resets next_chan_id (must be rejected)
 
 NOID == 99
 NONE == 0
@@ -59,6 +60,7 @@ Ids == 0..5
              shared := [i \in Ids |-> IF i \in Targets(op, chans) \cap chans THEN FALSE ELSE shared[i]];
              removedDone := removedDone \cup Targets(op, chans);
              chans := chans \ Targets(op, chans);
+             if (Mutant = "clear_resets_ids" /\ op[1] = "clear") { next_id := 0; };
           };
           wres := Append(wres, "ok"); k := k + 1;
           if (k <= Len(script)) { goto wop; };
@@ -157,7 +159,11 @@ wlk == /\ pc[W] = "wlk"
                   /\ shared' = [i \in Ids |-> IF i \in Targets(op, chans) \cap chans THEN FALSE ELSE shared[i]]
                   /\ removedDone' = (removedDone \cup Targets(op, chans))
                   /\ chans' = chans \ Targets(op, chans)
-                  /\ UNCHANGED << next_id, ever >>
+                  /\ IF Mutant = "clear_resets_ids" /\ op[1] = "clear"
+                        THEN /\ next_id' = 0
+                        ELSE /\ TRUE
+                             /\ UNCHANGED next_id
+                  /\ ever' = ever
        /\ wres' = Append(wres, "ok")
        /\ k' = k + 1
        /\ IF k' <= Len(script)
@@ -304,6 +310,9 @@ SingleContext == \A a \in Readers, b \in Readers : (a # b /\ cid[a] # NOID) => c
 (* C41 *)
 RemovalEffective == "used_after_remove" \notin bad
 NoLostChannel == "lost_channel" \notin bad
+(* C41: removed channels never reappear — ids are never reused, so no id whose removal returned
+   is ever in the map again (the add after a remove_all must not start over at 0) *)
+NoResurrection == chans \cap removedDone = {}
 (* C44 on the channel data *)
 NoUseAfterFree == "uaf" \notin bad
 FreedOnce == \A i \in Ids : freed[i] <= 1
